@@ -40,6 +40,15 @@ pub fn chunkings(fe: &Fe, bs: usize, l: usize, kind: Kind) -> Vec<Vec<P>> {
     for s in split_points(bs, l, fe.gran) {
         v.push(vec![p(s, kind), p(l - s, kind)]);
     }
+    // the remaining call forms: caller-supplied closures / write_keystream_blocks on the whole input, and pieces of
+    // cycling sizes each through the next form of the front-end
+    if kind == fe.kinds[0] {
+        for path in crate::c01::paths(fe) {
+            if path.closure != 0 || path.cycle.is_some() {
+                v.push(crate::c01::pieces_for(fe, &path, l));
+            }
+        }
+    }
     // long inputs through byte-granular stateful front-ends: short piece, long unaligned piece, rest
     if fe.gran == 1 && l >= 8 * bs && kind == fe.kinds[0] {
         let pts = boundary_points(bs, l);
